@@ -7,6 +7,7 @@ def cbOfName (n : String) : Option Cb := allCbs.find? (fun c => c.name == n)
 def parseArgs (flags : String) (pre : String) : Args :=
   let has (c : Char) : Bool := flags.toList.contains c
   { mode := if has 'P' then 2 else if has 'A' then 1 else 0
+    devD := has 'D'
     merge := has 'M'
     hasLine := has 'L'
     found := !has 'N'
